@@ -79,7 +79,7 @@ MCSLock::LockS()  //
   while (true) {
     if (cur) {  // there are successors
       if (lock_.compare_exchange_weak(cur, cur + kSLock, kAcquire, kRelaxed)) break;
-    } else if (lock_.compare_exchange_weak(cur, tail_ptr, kAcquire, kRelaxed)) {
+    } else if (lock_.compare_exchange_weak(cur, tail_ptr, std::memory_order_acq_rel, kRelaxed)) {
       goto end;  // NOLINT
     }
     CPP_UTILITY_SPINLOCK_HINT
@@ -122,7 +122,7 @@ MCSLock::LockSIX()  //
   const auto new_tail = std::bit_cast<uint64_t>(qnode);
 
   qnode->lock_.store(kXLock, kRelaxed);
-  const auto cur = lock_.exchange(new_tail | kSIXLock, kAcquire);
+  const auto cur = lock_.exchange(new_tail | kSIXLock, std::memory_order_acq_rel);
   qnode->lock_.fetch_xor(kXLock ^ (cur & kLockMask), kRelaxed);  // keep a link a successor may have added
 
   auto *tail = std::bit_cast<MCSLock *>(cur & kPtrMask);
@@ -146,7 +146,7 @@ MCSLock::LockX()  //
   const auto new_tail = std::bit_cast<uint64_t>(qnode);
 
   qnode->lock_.store(kXLock, kRelaxed);
-  const auto cur = lock_.exchange(new_tail | kXLock, kAcquire);
+  const auto cur = lock_.exchange(new_tail | kXLock, std::memory_order_acq_rel);
   qnode->lock_.fetch_xor(kXLock ^ (cur & kLockMask), kRelaxed);  // keep a link a successor may have added
 
   auto *tail = std::bit_cast<MCSLock *>(cur & kPtrMask);
